@@ -180,7 +180,11 @@ def _check_that_enum_values_are_representable(
     else:
         enum_range = (0, 2**max_enum_size - 1)
     for value in enum_type.value:
-        values.append((ir_util.constant_value(value.value), value))
+        numeric_value = ir_util.constant_value(value.value)
+        # A value that is not constant is reported by
+        # _check_constancy_of_constant_references.
+        if numeric_value is not None:
+            values.append((numeric_value, value))
     out_of_range = [v for v in values if not enum_range[0] <= v[0] <= enum_range[1]]
     # If all values are in range, this loop will have zero iterations.
     for value in out_of_range:
